@@ -96,7 +96,7 @@ def main():
                     got = ov(*vals[:npos], **dict(zip(kwn, vals[npos:])))
                 except TypeError as e:
                     s = str(e)
-                    got = "AMBIGUOUS" if s.startswith("Ambiguous") else "NOMETHOD" if s.startswith("No method") else f"TypeError:{s[:50]}"
+                    got = "AMBIGUOUS" if __import__("_errs").amb(s) else "NOMETHOD" if __import__("_errs").nomethod(s) else f"TypeError:{s[:50]}"
                 except Exception as e:
                     got = f"{type(e).__name__}:{str(e)[:50]}"
                 if len(dep_matches) == 1:
@@ -156,7 +156,7 @@ def main():
                 got = ov(*a_, **k_)
             except TypeError as e:
                 s_ = str(e)
-                got = "AMBIGUOUS" if s_.startswith("Ambiguous") else "NOMETHOD" if s_.startswith("No method") else f"TypeError:{s_[:50]}"
+                got = "AMBIGUOUS" if __import__("_errs").amb(s_) else "NOMETHOD" if __import__("_errs").nomethod(s_) else f"TypeError:{s_[:50]}"
             if got != want:
                 fail(f"keyword_only_value_types[{variant}]", call=[list(a_), k_], got=got, expected=want)
     # "preferred over methods declared on the bound OR ITS SUBCLASSES": a condition on numbers.Number / int next to static
@@ -187,7 +187,7 @@ def main():
                 got = ov(v)
             except TypeError as e:
                 s_ = str(e)
-                got = "AMBIGUOUS" if s_.startswith("Ambiguous") else "NOMETHOD" if s_.startswith("No method") else f"TypeError:{s_[:50]}"
+                got = "AMBIGUOUS" if __import__("_errs").amb(s_) else "NOMETHOD" if __import__("_errs").nomethod(s_) else f"TypeError:{s_[:50]}"
             if got != want:
                 fail("dependent_method_preferred_over_a_method_on_a_subclass_of_its_bound", bound=getattr(bound, "__name__", str(bound)), static_on=sub.__name__, value=repr(v), got=got, expected=want)
     print(json.dumps(dict(evaluations=n, failing=list(failing.values()))))
